@@ -50,15 +50,15 @@ func init() {
 
 // ticket kinds
 const (
-	tkValid     = iota // signer = miner, valid signature on the block hash
-	tkForged           // VerifierID = miner, signature is a bit-flipped valid one
-	tkWrongHash        // VerifierID = miner, valid signature on another hash
-	tkNonMiner         // VerifierID = sharder of the magic block, valid signature by its key
-	tkUnknown          // VerifierID = unregistered node, valid signature by its key
-	tkOtherSig         // VerifierID = miner i, signature = miner j's valid ticket signature
-	tkEmpty            // VerifierID = miner, empty signature
-	tkRetired          // VerifierID = registered node outside the magic block
-	tkOutsideMiner     // VerifierID = miner-type node the NUT knows (registry) that is not in the round's magic block, valid signature by its key
+	tkValid        = iota // signer = miner, valid signature on the block hash
+	tkForged              // VerifierID = miner, signature is a bit-flipped valid one
+	tkWrongHash           // VerifierID = miner, valid signature on another hash
+	tkNonMiner            // VerifierID = sharder of the magic block, valid signature by its key
+	tkUnknown             // VerifierID = unregistered node, valid signature by its key
+	tkOtherSig            // VerifierID = miner i, signature = miner j's valid ticket signature
+	tkEmpty               // VerifierID = miner, empty signature
+	tkRetired             // VerifierID = registered node outside the magic block
+	tkOutsideMiner        // VerifierID = miner-type node the NUT knows (registry) that is not in the round's magic block, valid signature by its key
 	tkKinds
 )
 
